@@ -294,7 +294,7 @@ func newRig(listen bool) (*rig, error) {
 	a, b := net.Pipe()
 	r := &rig{sessEnd: a, served: make(chan string, 1), accepted: make(chan *ibb.Conn, 64)}
 	r.peer = newRawPeer(b)
-	s, err := hx.NewReadySession(a, stanza.NSClient, 0, jid.MustParse(localAddr), jid.MustParse(remoteAddr))
+	s, err := hx.NewReadySession(a, stanza.NSClient, 0, jid.MustParse(remoteAddr), jid.MustParse(localAddr)) // (location, origin): LocalAddr() is localAddr
 	if err != nil {
 		return nil, err
 	}
